@@ -12,19 +12,39 @@ import systems
 
 
 class SchedExecutor(Executor):
-    """submit() only queues; the tasks run when wait() is called, in an order chosen by `chooser(n)`"""
+    """submit() only queues; the tasks run when wait() is called, in an order chosen by `chooser(n)`.  Code that collects results in another
+    way than through wait() (as_completed, result() on a pending future) would block forever on futures nobody runs: a watchdog timer runs a
+    queue that has been left alone for three seconds - in the chosen order - so that such code shows its dependence on the completion order
+    instead of hanging the check"""
     def __init__(self, chooser):
+        import threading
         self.queue = []
         self.chooser = chooser
         self.schedules = []
+        self._lock = threading.RLock()
+        self._timer = None
 
     def submit(self, fn, *args, **kwargs):
+        import threading
         f = Future()
-        self.queue.append((f, fn, args, kwargs))
+        with self._lock:
+            self.queue.append((f, fn, args, kwargs))
+            if self._timer is None:
+                self._timer = threading.Timer(3.0, self._watchdog)
+                self._timer.daemon = True
+                self._timer.start()
         return f
 
+    def _watchdog(self):
+        with self._lock:
+            self._timer = None
+            pending = bool(self.queue)
+        if pending:
+            self.run_queued()
+
     def run_queued(self):
-        q, self.queue = self.queue, []
+        with self._lock:
+            q, self.queue = self.queue, []
         order = self.chooser(len(q))
         self.schedules.append(list(order))
         for i in order:
